@@ -222,6 +222,27 @@ func (k *Key) PGPEntity() *openpgp.Entity {
 		PrivateKey: k.private,
 		Identities: map[string]*openpgp.Identity{},
 	}
+	if k.private == nil {
+		// A key read from git only has its public part: there is nothing to self-sign with.
+		// Checking a signature only needs the user id and the usage flags of its self-signature.
+		uid := packet.NewUserId("name", "", "")
+		isPrimaryId := true
+		e.Identities[uid.Id] = &openpgp.Identity{
+			Name:   uid.Id,
+			UserId: uid,
+			SelfSignature: &packet.Signature{
+				SigType:      packet.SigTypePositiveCert,
+				PubKeyAlgo:   k.public.PubKeyAlgo,
+				CreationTime: k.public.CreationTime,
+				IssuerKeyId:  &k.public.KeyId,
+				IsPrimaryId:  &isPrimaryId,
+				FlagsValid:   true,
+				FlagSign:     true,
+				FlagCertify:  true,
+			},
+		}
+		return e
+	}
 	// somehow initialize the proper fields with identity, self-signature ...
 	err := e.AddUserId("name", "", "", nil)
 	if err != nil {
